@@ -244,6 +244,13 @@ func (e *cutEngine) generate(r *rng, n int, tier string, emit func(string)) {
 		genWF(r, 1, &second)
 		ext := append(append([]cutTok{}, toks...), second...)
 		emit("e0,p0 x" + hex.EncodeToString([]byte(renderToks(r, ext))) + " | " + wfCheck(ext))
+		// a complete expression followed by a second one that is left OPEN: more than one expression, not "incomplete"
+		var open2 []cutTok
+		genWF(r, 3, &open2)
+		for k := 1; k < len(open2) && k <= 6; k++ {
+			ext2 := append(append([]cutTok{}, toks...), open2[:k]...)
+			emit("e0,p0 x" + hex.EncodeToString([]byte(renderToks(r, ext2))) + " | " + wfCheck(ext2))
+		}
 	}
 }
 
